@@ -1,5 +1,6 @@
 import SqlObjVerif.Lemmas.Events
 import SqlObjVerif.Lemmas.EventsX
+import SqlObjVerif.Lemmas.EvMainXSetEq
 /-!
 # C19 — row events fire exactly once, in order around the database write; listener edits of the
 create / update kwargs are what gets stored; appended post-callbacks run after the operation;
@@ -301,5 +302,118 @@ example :
       = some ([(1, .int 2), (0, .int 5)],
               [.ev .update 0 (some 7) (some [(1, .int 2)]), .ev .update 2 (some 7) (some [(1, .int 2), (0, .int 5)])]) := by
   decide
+
+/-! ## the signal paths of `SQLObject` are what the SOURCE says: `set`, `syncUpdate`, `destroySelf` as TRANSLATED on this run
+
+`setX` / `syncUpdateX` / `destroySelfX` (Model/EvMainX.lean) RUN the PyEv programs `vlib/extractors/pyevmain.py` produced from
+/repo's `main.py` on this very run (`Extracted/PyEvMain.lean`) — WITH their `sqlmeta.send(...)` calls (through the translated
+`sqlmeta.send`, i.e. `deliver`), the `for func in post_funcs: func(self)` loops, the lock, the validation / filter / sort
+loops — on the image `absW` of a model state; `absUnit` reads the final world back.  The interface (connection, cache,
+validators, the cascade inside `destroySelf`) is stated in the header of Model/EvMainX.lean.  `__init__` / `_create` /
+`_SO_finishCreate` (+ its postponed `_send_RowCreatedSignal` thunk) / `_init` / `_SO_setValue` are translated on every run
+too and RUN below on concrete configurations (kernel evaluation: witnesses, not ∀-theorems). -/
+
+/-- **`obj.set(**kw)` as translated = the model's `opSet`**: same table, same pending values, same ordered log
+    [RowUpdateSignal × listeners, UPDATE, RowUpdatedSignal × listeners, callbacks], same outcome — for every listener list,
+    every state, every kwargs dict (distinct keys), eager and lazy classes, `cacheValues` on or off. -/
+theorem C19_translated_set_eq_model (fuel : Nat) (c : Cfg) (s : State) (h : Nat) (o : Events.Obj) (cv kw : Kw)
+    (ho : s.objs[h]? = some o) (hrep : Rep c.ncols cv o.pending) (hnd : (kw.map (·.1)).Nodup) :
+    absUnit s h (setX fuel (absW c s (pyObj o cv)) [] (PyEv.kwPV kw)) = some (opSet c s h o kw) :=
+  setX_eq fuel c s h o cv kw ho hrep hnd
+
+/-- **`obj.syncUpdate()` as translated = the model's `opSyncUpdate`** (one UPDATE with all pending values, RowUpdatedSignal to
+    every listener once, then the callbacks; nothing at all when nothing is pending). -/
+theorem C19_translated_syncUpdate_eq_model (fuel : Nat) (c : Cfg) (s : State) (h : Nat) (o : Events.Obj) (cv : Kw)
+    (ho : s.objs[h]? = some o) (hrep : Rep c.ncols cv o.pending) :
+    absUnit s h (syncUpdateX fuel (absW c s (pyObj o cv))) = some (opSyncUpdate c s h o) :=
+  syncUpdateX_eq fuel c s h o cv ho hrep
+
+/-- **the signal frame of `destroySelf` as translated = the model's `opDestroy`** (RowDestroySignal × listeners, [cascade: a
+    parameter, empty for a class without joins / dependents], DELETE, the callbacks appended on RowDestroySignal,
+    RowDestroyedSignal × listeners, their callbacks). -/
+theorem C19_translated_destroySelf_eq_model (fuel : Nat) (c : Cfg) (s : State) (h : Nat) (o : Events.Obj) (cv : Kw)
+    (ho : s.objs[h]? = some o) (hrep : Rep c.ncols cv o.pending) :
+    absUnit s h (destroySelfX fuel (absW c s (pyObj o cv))) = some (opDestroy c s o) :=
+  destroySelfX_eq fuel c s h o cv ho hrep
+
+/-- **events exactly once, in order — about the translated source.**  Running the translated `set` on an eager object:
+    it succeeds iff the kwargs as rewritten by the listeners are acceptable; then its log is exactly before-events, one
+    UPDATE (none when no column is left), after-events, callbacks; otherwise the before-events only and nothing changed.
+    Running the translated `destroySelf`: exactly `destroyShape`.  Running the translated `syncUpdate` with something
+    pending: one UPDATE, the after-events, their callbacks. -/
+theorem C19_translated_events_once_in_order (fuel : Nat) (c : Cfg) (s : State) (h : Nat) (o : Events.Obj) (cv kw : Kw)
+    (ho : s.objs[h]? = some o) (hrep : Rep c.ncols cv o.pending) (hnd : (kw.map (·.1)).Nodup) (hl : c.lazy = false) :
+    (∃ s' log out, absUnit s h (setX fuel (absW c s (pyObj o cv)) [] (PyEv.kwPV kw)) = some (s', log, out)
+      ∧ (out = .ok ↔ kwOk c (updKw c kw))
+      ∧ (out = .ok → tags log = updateShape c o.id (!vecEmpty (colVec c.ncols (updKw c kw))))
+      ∧ (out ≠ .ok → tags log = evTags c .update ∧ s' = s))
+    ∧ (∃ s' log, absUnit s h (destroySelfX fuel (absW c s (pyObj o cv))) = some (s', log, .ok)
+      ∧ tags log = destroyShape c o.id ∧ s' = { s with rows := delRows s.rows o.id })
+    ∧ (vecEmpty o.pending = false →
+        ∃ s' log, absUnit s h (syncUpdateX fuel (absW c s (pyObj o cv))) = some (s', log, .ok)
+          ∧ tags log = Tag.upd o.id :: afterUpdateShape c ∧ s'.rows = updRows s.rows o.id o.pending) := by
+  refine ⟨⟨_, _, _, setX_eq fuel c s h o cv kw ho hrep hnd, C19_events_once_in_order_update c s h o kw hl⟩, ?_, ?_⟩
+  · have := destroy_spec c s o
+    refine ⟨(opDestroy c s o).1, (opDestroy c s o).2.1, ?_, this.2.1, this.2.2⟩
+    rw [destroySelfX_eq fuel c s h o cv ho hrep, ← this.1]
+  · intro he
+    have := syncUpdate_pending c s h o he
+    refine ⟨(opSyncUpdate c s h o).1, (opSyncUpdate c s h o).2.1, ?_, this.2.1, this.2.2.1⟩
+    rw [syncUpdateX_eq fuel c s h o cv ho hrep, ← this.1]
+
+/-- **listener edits are what gets stored — about the translated source**: after the translated `set` succeeded on an eager
+    object, the row of the object is the old row overwritten with the column part of the kwargs as rewritten by the
+    listeners in connection order; other rows are untouched. -/
+theorem C19_translated_rewrite_is_stored (fuel : Nat) (c : Cfg) (s : State) (h : Nat) (o : Events.Obj) (cv kw : Kw)
+    (ho : s.objs[h]? = some o) (hrep : Rep c.ncols cv o.pending) (hnd : (kw.map (·.1)).Nodup) (hl : c.lazy = false) :
+    ∃ s' log out, absUnit s h (setX fuel (absW c s (pyObj o cv)) [] (PyEv.kwPV kw)) = some (s', log, out)
+      ∧ (out = .ok → ∀ id', rowOf? s'.rows id' =
+          (if id' = o.id ∧ vecEmpty (colVec c.ncols (updKw c kw)) = false
+           then (rowOf? s.rows id').map (fun r => applyVec r (colVec c.ncols (updKw c kw)))
+           else rowOf? s.rows id')) :=
+  ⟨_, _, _, setX_eq fuel c s h o cv kw ho hrep hnd, fun hok id' => (C19_rewrite_is_stored c s h o kw hl hok id').1⟩
+
+/-- **appended callbacks run after the write — about the translated source**: in the log of a successful translated `set`
+    that wrote, every callback run comes after the UPDATE (and the log is before-events, UPDATE, after-events, callbacks). -/
+theorem C19_translated_post_funcs_run_after (fuel : Nat) (c : Cfg) (s : State) (h : Nat) (o : Events.Obj) (cv kw : Kw)
+    (ho : s.objs[h]? = some o) (hrep : Rep c.ncols cv o.pending) (hnd : (kw.map (·.1)).Nodup) (hl : c.lazy = false) :
+    ∃ s' log out, absUnit s h (setX fuel (absW c s (pyObj o cv)) [] (PyEv.kwPV kw)) = some (s', log, out)
+      ∧ (out = .ok → vecEmpty (colVec c.ncols (updKw c kw)) = false →
+          tags log = evTags c .update ++ [Tag.upd o.id] ++ evTags c .updated ++ postTags c .updated
+          ∧ ∀ pre suf p, tags log = pre ++ Tag.post p :: suf → Tag.upd o.id ∈ pre) := by
+  refine ⟨_, _, _, setX_eq fuel c s h o cv kw ho hrep hnd, fun hok he => ?_⟩
+  have ht := (C19_events_once_in_order_update c s h o kw hl).2.1 hok
+  rw [he] at ht
+  have ht' : tags (opSet c s h o kw).2.1 = updateShape c o.id true := ht
+  have hp := C19_post_funcs_run_after c o.id
+  refine ⟨ht'.trans (hp [] [] 0).2.2.2.2.1, fun pre suf p hps => ?_⟩
+  exact (hp pre suf p).2.1 (ht'.symm.trans hps)
+
+/-! ### concrete runs of the translated `__init__` → `_create` → `set` → `_SO_finishCreate` → `_init` → postponed thunk, and of
+`_SO_setValue` (kernel evaluation of the translated programs; witnesses — the ∀-statement for these is the hand model's,
+tied by the correspondence run) -/
+
+/-- `Cls(c0=1)`: a RowCreateSignal listener rewrites the kwargs, another appends a callback; two RowCreatedSignal listeners:
+    the translated constructor produces exactly the model's state, ordered log and outcome -/
+example :
+    let c : Cfg := ⟨3, false, [.int 100, .int 101, .int 102], [⟨.create, .setKey 1 (.int 7)⟩, ⟨.create, .post 3⟩, ⟨.created, .post 4⟩, ⟨.created, .observe⟩], true⟩
+    absNew init (initX 3 (createX 3) (absW c init newObj) (PyEv.kwPV [(0, .int 1)])) = some (opCreate c init [(0, .int 1)])
+    ∧ tags (opCreate c init [(0, .int 1)]).2.1 = [.ev .create 0, .ev .create 1, .ins 1, .post 3, .ev .created 2, .ev .created 3, .post 4] := by
+  decide +kernel
+
+/-- a failing create (rejected default) on a lazy class: before-events only, nothing stored, the thread-local list removed -/
+example :
+    let c : Cfg := ⟨2, true, [.int 100, .bad], [⟨.create, .observe⟩], true⟩
+    absNew init (initX 3 (createX 3) (absW c init newObj) (PyEv.kwPV [(0, .int 1)])) = some (opCreate c init [(0, .int 1)]) := by
+  decide +kernel
+
+/-- `obj.c0 = 9` where a listener adds a key: `_SO_setValue` delegates to `set` with the signal suppressed and returns -/
+example :
+    let c : Cfg := ⟨2, false, [.int 100, .int 5], [⟨.update, .setKey 1 (.int 7)⟩, ⟨.updated, .post 3⟩], true⟩
+    let s : State := ⟨[(1, [.int 1, .int 2])], 2, [⟨1, [none, none]⟩]⟩
+    absUnit s 0 (setValueX 3 (absW c s (pyObj ⟨1, [none, none]⟩ [])) 0 (.int 9)) = some (opAssign c s 0 ⟨1, [none, none]⟩ 0 (.int 9))
+    ∧ tags (opAssign c s 0 ⟨1, [none, none]⟩ 0 (.int 9)).2.1 = [.ev .update 0, .upd 1, .ev .updated 1, .post 3] := by
+  decide +kernel
+
 
 end SqlObjVerif.Events
